@@ -307,7 +307,10 @@ class Mitm:
             a['done'] = True
             self.applied.append(dict(a))
             op = a['op']
-            if op == 'flip':
+            if op == 'flip' and a.get('setlen') is not None:
+                # the whole length field rewritten (taint "len" of the model)
+                out = [a['setlen'].to_bytes(4, 'big') + data[4:]] + out[1:]
+            elif op == 'flip':
                 out = [self._flip(data, a['region'], a.get('bit', 0))] + out[1:]
             elif op == 'trunc':
                 out = [data[:max(1, len(data) - 1 - a.get('cut', 0))]] + out[1:]
